@@ -72,8 +72,19 @@ nsync_time nsync_from_time_point_ (nsync_cpp_time_point_ tp) {
 /* Return the nsync_cpp_time_point_ corresponding to absolute time t. */
 nsync_cpp_time_point_ nsync_to_time_point_ (nsync_time t) {
 	nsync_cpp_time_point_ tp;
-	std::chrono::nanoseconds t_ns(NSYNC_TIME_NSEC (t) +
-                                      NSYNC_NS_IN_S_ * (int64_t) NSYNC_TIME_SEC (t));
+	/* A 64-bit count of nanoseconds reaches only about 292 years either side of
+	   the epoch; saturate instants beyond that instead of overflowing.  */
+	const int64_t max_s = std::chrono::nanoseconds::max ().count () / NSYNC_NS_IN_S_ - 1;
+	int64_t s = (int64_t) NSYNC_TIME_SEC (t);
+	int64_t ns = (int64_t) NSYNC_TIME_NSEC (t);
+	if (s > max_s) {
+		s = max_s;
+		ns = 0;
+	} else if (s < -max_s) {
+		s = -max_s;
+		ns = 0;
+	}
+	std::chrono::nanoseconds t_ns(ns + NSYNC_NS_IN_S_ * s);
 	nsync_cpp_time_point_::duration tp_dur =
 		std::chrono::duration_cast<nsync_cpp_time_point_::duration>(t_ns);
 	return (tp + tp_dur);
